@@ -46,4 +46,15 @@ def cases(ctx):
         ops = [f'P.base {b} {d}'] + [f'P.card {c}' for c in seq]
         ctx.count('base_sequences')
         yield Case(ops, {'kind': 'base'})
+    # the SAME four cards met again in another order (another board of the same session, same denomination): the winner
+    # depends on the suit LED, not on the set of cards — anything remembered about a trick from an earlier board shows here
+    for _ in range(30 if ctx.quick else 300):
+        b, d = rng.randrange(35), rng.choice(pc.SEATS)
+        suits = rng.sample(range(4), 2)
+        four = [suits[0] * 13 + r for r in rng.sample(range(13), 2)] + [suits[1] * 13 + r for r in rng.sample(range(13), 2)]
+        rng.shuffle(four)
+        other = [c for c in four if c // 13 != four[0] // 13] + [c for c in four if c // 13 == four[0] // 13]
+        ops = [f'P.base {b} {d}'] + [f'P.card {c}' for c in four] + [f'P.base {b} {d}'] + [f'P.card {c}' for c in other]
+        ctx.count('same_four_cards_other_lead')
+        yield Case(ops, {'kind': 'same-four-cards'})
     yield Case(['P.base - -', 'P.base - N', 'P.base 3 -', 'P.full - - - - - -'], {'kind': 'bad-contract'})
